@@ -120,3 +120,30 @@ func ZZ_C19_ParseAll() {
 	verifAssert(len(ports) == 13, "Ports() enumerates the union once")
 	verifCover("all")
 }
+
+// Numbers at and beyond the top of the port range: five- and six-digit numbers
+// with symbolic digits, alone, as either end of a range and next to another
+// port - accepted exactly when they are at most 65535, and then denoting
+// exactly themselves.
+//
+//verif:harness kind=api unwind=64 bound=5-or-6-symbolic-digits,shapes{N;7-N;N-7;443,N}
+func ZZ_C19_ParseLargeNumbers() {
+	k := 5 + verifChoice("digits", 2)
+	ds := verifBytes("number", k)
+	for i := range ds {
+		verifAssume(zzDigit(ds[i]))
+	}
+	num := string(ds)
+	s := []string{num, "7-" + num, num + "-7", "443," + num}[verifChoice("shape", 4)]
+	p := verifUint16("port")
+	valid, want := zzRefPorts(s, p)
+	u := ParsePortUnion(s)
+	if !valid {
+		verifCover("too-large")
+		verifAssert(u == nil, "a number above 65535 makes the expression invalid")
+		return
+	}
+	verifCover("in-range")
+	verifAssert(u != nil, "a number up to 65535 is accepted")
+	verifAssert(u.Contains(p) == want, "and denotes exactly itself (as a port or as the end of a range)")
+}
